@@ -113,7 +113,7 @@ func drain(it iter, r *rand.Rand) int {
 // firstSamples: the statistics collector while operation types, error kinds and latency trackers
 // are seen for the FIRST time (map entries being created) under concurrent readers. Each round
 // uses a fresh collector: three goroutines read (GetStats / GetStatsFiltered), two record first
-// samples of new names. A panic or fatal error ends the process (the parent reports it).
+// samples of new names, four record the same new names at the same time. A panic or fatal error ends the process (the parent reports it).
 func firstSamples(seed int64, rounds int) {
 	for rd := 0; rd < rounds; rd++ {
 		coll := stats.NewAtomicCollector()
@@ -154,6 +154,23 @@ func firstSamples(seed int64, rounds int) {
 				}
 			}(t)
 		}
+		// ... and the SAME new name recorded for the first time by several goroutines at once (the
+		// double-checked creation of its counter: the loser of the race must use the winner's)
+		start := make(chan struct{})
+		for t := 0; t < 4; t++ {
+			wg.Add(1)
+			go func(t int) {
+				defer wg.Done()
+				<-start
+				for i := 0; i < 6; i++ {
+					op := stats.OperationType(fmt.Sprintf("same-op-%d", i))
+					coll.TrackError(fmt.Sprintf("same-err-%d", i))
+					coll.TrackOperation(op)
+					coll.TrackOperationWithLatency(stats.OperationType(fmt.Sprintf("same-lat-%d", i)), uint64(i))
+				}
+			}(t)
+		}
+		close(start)
 		wg.Wait()
 		stop.Store(true)
 		readers.Wait()
